@@ -5,8 +5,9 @@
      * [NumR]  : Coq's real numbers  -- the theorems (termination, guards) are about this one;
      * [NumF]  : primitive binary64  -- used to RUN the model under vm_compute (correspondence
                  with the implementation, and the machine-checked float counterexamples).
-   A literal of the Python source is carried as [llit m e h]: the decimal value m * 10^e (what the
-   literal means over R) together with the binary64 value h that the Python parser produces. *)
+   A literal of the Python source is carried as [llit m e b x]: the decimal value m * 10^e (what the
+   literal means over R) together with the binary64 value b * 2^x that the Python parser produces
+   (integers only, so that nothing about floats enters the type of the signature). *)
 From Coq Require Import ZArith Reals Bool.
 From Coq Require Import Floats.PrimFloat.
 From Coq Require Numbers.Cyclic.Int63.Uint63.
@@ -24,7 +25,7 @@ Record LNum : Type := mkLNum {
   lleb : T -> T -> bool;          (* a <= b *)
   leqb : T -> T -> bool;          (* a == b *)
   lofZ : Z -> T;                  (* integer literal *)
-  llit : Z -> Z -> float -> T;    (* float literal: m * 10^e, and its binary64 value *)
+  llit : Z -> Z -> Z -> Z -> T;   (* float literal: decimal m * 10^e; binary64 value b * 2^x *)
   lpi : T                         (* np.pi *)
 }.
 
@@ -32,15 +33,17 @@ Record LNum : Type := mkLNum {
 Definition Rltb (a b : R) : bool := if Rlt_dec a b then true else false.
 Definition Rleb (a b : R) : bool := if Rle_dec a b then true else false.
 Definition Reqb (a b : R) : bool := if Req_EM_T a b then true else false.
-Definition Rlit (m e : Z) (_ : float) : R :=
+Definition Rlit (m e : Z) : R :=
   match e with
   | Z0 => IZR m
   | Zpos p => IZR (m * Z.pow_pos 10 p)
   | Zneg p => IZR m / IZR (Z.pow_pos 10 p)
   end.
 
+Arguments Rlit : simpl never.
+
 Definition NumR : LNum :=
-  mkLNum R Rplus Rminus Rmult Rdiv Ropp R_sqrt.sqrt Rabs Rltb Rleb Reqb IZR Rlit PI.
+  mkLNum R Rplus Rminus Rmult Rdiv Ropp R_sqrt.sqrt Rabs Rltb Rleb Reqb IZR (fun m e _ _ => Rlit m e) PI.
 
 (* ---------------------------------------------------------------- binary64 *)
 Definition f_ofZ (z : Z) : float :=
@@ -51,10 +54,19 @@ Definition f_ofZ (z : Z) : float :=
   end.
 Definition f_pi : float := 0x1.921fb54442d18p+1%float.
 
+(* b * 2^x, exactly (b < 2^53; repeated exact scaling by 2) *)
+Definition f_two : float := 0x1p+1%float.
+Definition f_lit (b x : Z) : float :=
+  match x with
+  | Z0 => f_ofZ b
+  | Zpos p => Pos.iter (fun v => PrimFloat.mul v f_two) (f_ofZ b) p
+  | Zneg p => Pos.iter (fun v => PrimFloat.div v f_two) (f_ofZ b) p
+  end.
+
 Definition NumF : LNum :=
   mkLNum float PrimFloat.add PrimFloat.sub PrimFloat.mul PrimFloat.div PrimFloat.opp
          PrimFloat.sqrt PrimFloat.abs PrimFloat.ltb PrimFloat.leb PrimFloat.eqb
-         f_ofZ (fun _ _ h => h) f_pi.
+         f_ofZ (fun _ _ b x => f_lit b x) f_pi.
 
 (* result of a fuelled loop: value and number of body executions, or the distinct error values *)
 Inductive res (A : Type) : Type :=
